@@ -84,6 +84,75 @@ Theorem C17_grid2d_centre_formula : forall n s i, i < n ->
 Proof. exact g_centres_formula. Qed.
 Print Assumptions C17_grid2d_centre_formula.
 
+(* ------------------------------------------------------------------ rotated (and dipped) ABOUT THE ORIGIN *)
+(* The code's rotation is the matrix [[c, -s, 0], [s, c, 0], [0, 0, 1]] ([rotz_cs]), its dip the matrix
+   [[1, 0, 0], [0, c, -s], [0, s, c]] ([rotx_cs]), with c, s the cosine and sine of the object's angle.  For ANY functions
+   cosd, sind giving them (the float trigonometry stays outside Coq) with c^2 + s^2 = 1 at the object's angle:
+   the centre of cell (i, j, k) has the explicit counter-clockwise coordinates below, its distance from the origin equals
+   the distance of the local centre from (0, 0, 0), and the rotation leaves the origin itself in place. *)
+Theorem C17_blockmodel_rotated_about_origin : forall (cosd sind : Q -> Q) b i j k u v z,
+  let c := cosd (bm_rotation b) in let s := sind (bm_rotation b) in
+  (c * c + s * s == 1)%Q ->
+  nth_error (centres (bm_du b)) i = Some u -> nth_error (centres (bm_dv b)) j = Some v ->
+  nth_error (centres (bm_dz b)) k = Some z ->
+  let nU := length (bm_du b) - 1 in let nZ := length (bm_dz b) - 1 in
+  let o := origin_or_zero (bm_origin b) in
+  exists q, nth_error (bm_compute (rotm_of cosd sind) b) (k + i * nZ + j * nU * nZ) = Some q
+    /\ veq q (vadd (c * u - s * v, s * u + c * v, z)%Q o)
+    /\ (sqdist q o == u * u + v * v + z * z)%Q
+    /\ veq (vadd (rotm_of cosd sind (bm_rotation b) vzero) o) o.
+Proof.
+  intros cosd sind b i j k u v z c s H Hu Hv Hz nU nZ o.
+  eexists. split; [apply (bm_index (rotm_of cosd sind) b i j k u v z Hu Hv Hz)|].
+  fold o. unfold rotm_of. fold c s. split; [apply veq_refl_g|].
+  destruct (rotz_about_origin c s o (u, v, z) H) as [Hd H0]. split; [|exact H0].
+  rewrite Hd. unfold sqdist, vzero. ring.
+Qed.
+Print Assumptions C17_blockmodel_rotated_about_origin.
+
+Theorem C17_grid2d_rotated_about_origin : forall (cosd sind : Q -> Q) g i j u v,
+  let c := cosd (g_rotation g) in let s := sind (g_rotation g) in
+  let cd := cosd (g_eff_dip g) in let sd := sind (g_eff_dip g) in
+  (c * c + s * s == 1)%Q -> (cd * cd + sd * sd == 1)%Q ->
+  nth_error (g_centres (g_nu g) (g_su g)) i = Some u -> nth_error (g_centres (g_nv g) (g_sv g)) j = Some v ->
+  exists q, nth_error (g_compute (rotm_of cosd sind) (dipm_of cosd sind) g) (i + j * g_nu g) = Some q
+    /\ veq q (vadd (c * u - s * (cd * v), s * u + c * (cd * v), sd * v)%Q (g_origin g))
+    /\ (sqdist q (g_origin g) == u * u + v * v)%Q.
+Proof.
+  intros cosd sind g i j u v c s cd sd H Hd Hu Hv.
+  eexists. split; [apply (g_index (rotm_of cosd sind) (dipm_of cosd sind) g i j u v Hu Hv)|].
+  unfold rotm_of, dipm_of. fold c s cd sd. split.
+  - destruct (g_origin g) as [[ox oy] oz]. unfold veq, vadd, rotz_cs, rotx_cs. repeat split; ring.
+  - rewrite (dip_rot_about_origin c s cd sd (g_origin g) (u, v, 0%Q) H Hd). unfold sqdist, vzero. ring.
+Qed.
+Print Assumptions C17_grid2d_rotated_about_origin.
+
+Theorem C17_octree_rotated_about_origin : forall (cosd sind : Q -> Q) o p cell,
+  let c := cosd (o_rotation o) in let s := sind (o_rotation o) in
+  (c * c + s * s == 1)%Q ->
+  nth_error (o_cells_or_default o) p = Some cell ->
+  let loc := o_local (o_su o) (o_sv o) (o_sw o) cell in
+  let org := origin_or_zero (o_origin o) in
+  exists q, nth_error (o_compute (rotm_of cosd sind) o) p = Some q
+    /\ veq q (vadd (rotz_cs c s loc) org)
+    /\ (sqdist q org == sqdist loc vzero)%Q.
+Proof.
+  intros cosd sind o p cell c s H Hc loc org.
+  eexists. split; [apply (o_centroid_nth (rotm_of cosd sind) o p cell Hc)|].
+  fold loc org. unfold rotm_of. fold c s. split; [apply veq_refl_g|].
+  exact (proj1 (rotz_about_origin c s org loc H)).
+Qed.
+Print Assumptions C17_octree_rotated_about_origin.
+
+(* non-vacuity: an exact non-trivial rotation, cos = 3/5, sin = 4/5 *)
+Example C17_rotation_nonvacuous :
+  let cosd := fun _ : Q => (3 # 5)%Q in let sind := fun _ : Q => (4 # 5)%Q in
+  let b := {| bm_origin := Some (10, 20, 30)%Q; bm_rotation := 53%Q; bm_du := [0; 10]%Q; bm_dv := [0; 10]%Q; bm_dz := [0; 2]%Q;
+              bm_cache := None |} in
+  (cosd 53 * cosd 53 + sind 53 * sind 53 == 1)%Q
+  /\ vlist_eqb (bm_compute (rotm_of cosd sind) b) [ (10 + 3 - 4, 20 + 4 + 3, 31) ]%Q = true.
+Proof. split; vm_compute; reflexivity. Qed.
+
 (* ------------------------------------------------------------------ number of centres = number of cells *)
 Theorem C17_n_centroids : forall (rotm dipm : Q -> V3 -> V3),
   (forall b, length (bm_compute rotm b) = bm_n_cells b)
